@@ -545,7 +545,7 @@ func (c *PullClient) requestWithResponse(r *Request) (*Response, error) {
 		}
 
 		// 保存 session
-		c.rsession = resp.Header.Get(FieldSession)
+		c.rsession = trimSessionString(resp.Header.Get(FieldSession))
 
 		// TODO: 代码臃肿，需要优化
 		// 再试一次 password md5的情况
@@ -588,7 +588,7 @@ func (c *PullClient) requestWithResponse(r *Request) (*Response, error) {
 			}
 
 			// 保存 session
-			c.rsession = resp.Header.Get(FieldSession)
+			c.rsession = trimSessionString(resp.Header.Get(FieldSession))
 		}
 	}
 
